@@ -1,6 +1,6 @@
 CONSTANTS Cfgs <- NoCfgs
 KMask = 2
-MaskMod = 8
+MaskMod = 16
 MaxBits = 2
 Modes <- BothModes
 EmitOn = TRUE
